@@ -1,6 +1,7 @@
 package main
 
 import (
+	"hash/fnv"
 	"fmt"
 	"go/ast"
 	"go/token"
@@ -512,7 +513,20 @@ func (w *World) typeID(t types.Type) int {
 	if id, ok := w.typeIDs[n]; ok {
 		return id
 	}
-	id := len(w.typeIDs) + 1
+	// a stable id (independent of discovery order): hash of the type name, collisions resolved deterministically
+	h := fnv.New32a()
+	h.Write([]byte(n))
+	id := int(h.Sum32()%900000) + 1
+	for used := true; used; {
+		used = false
+		for _, v := range w.typeIDs {
+			if v == id {
+				used = true
+				id++
+				break
+			}
+		}
+	}
 	w.typeIDs[n] = id
 	return id
 }
